@@ -11,4 +11,4 @@ package compiler
 // over the syntax tree / the tree of code objects (acyclic, depth bounded by the parser's MaxDepth); the SymbolTable
 // walks follow the parent chain (a child is created from its parent, no setter); the (un)marshal functions recurse
 // over constants and definitions, which mirror those trees.
-//@ scan[C03.recursion.compiler] C03 recursive compiler: (*Code).Flatten (*Compiler).collectFunctionDeclarations (*Compiler).compile (*Compiler).compileAnd (*Compiler).compileAssign (*Compiler).compileBlock (*Compiler).compileCall (*Compiler).compileConst (*Compiler).compileDeferStmt (*Compiler).compileFor (*Compiler).compileForCondition (*Compiler).compileForIn (*Compiler).compileForRange (*Compiler).compileFunc (*Compiler).compileFunctionBlock (*Compiler).compileGetAttr (*Compiler).compileGoStmt (*Compiler).compileIf (*Compiler).compileIn (*Compiler).compileIndex (*Compiler).compileInfix (*Compiler).compileList (*Compiler).compileMap (*Compiler).compileMultiVar (*Compiler).compileNotIn (*Compiler).compileObjectCall (*Compiler).compileOr (*Compiler).compilePartial (*Compiler).compilePartialObjectCall (*Compiler).compilePipe (*Compiler).compilePrefix (*Compiler).compileProgram (*Compiler).compileRange (*Compiler).compileReceive (*Compiler).compileReturn (*Compiler).compileSend (*Compiler).compileSet (*Compiler).compileSetAttr (*Compiler).compileSetItem (*Compiler).compileSimpleFor (*Compiler).compileSlice (*Compiler).compileString (*Compiler).compileSwitch (*Compiler).compileTernary (*Compiler).compileVar (*SymbolTable).FindTable (*SymbolTable).FunctionDepth (*SymbolTable).GetFunction (*SymbolTable).GetFunctionID (*SymbolTable).IsGlobal (*SymbolTable).claimIndex definitionFromFunction definitionFromSymbolTable marshalConstant marshalConstants symbolTableFromDefinition unmarshalConstant unmarshalConstants
+//@ scan[C03.recursion.compiler] C03 recursive compiler: (*Code).Flatten (*Compiler).collectFunctionDeclarations (*Compiler).compile (*Compiler).compileArgument (*Compiler).compileAnd (*Compiler).compileAssign (*Compiler).compileBlock (*Compiler).compileCall (*Compiler).compileConst (*Compiler).compileDeferStmt (*Compiler).compileFor (*Compiler).compileForCondition (*Compiler).compileForIn (*Compiler).compileForRange (*Compiler).compileFunc (*Compiler).compileFunctionBlock (*Compiler).compileGetAttr (*Compiler).compileGoStmt (*Compiler).compileIf (*Compiler).compileIn (*Compiler).compileIndex (*Compiler).compileInfix (*Compiler).compileList (*Compiler).compileMap (*Compiler).compileMultiVar (*Compiler).compileNotIn (*Compiler).compileObjectCall (*Compiler).compileOr (*Compiler).compilePartial (*Compiler).compilePartialObjectCall (*Compiler).compilePipe (*Compiler).compilePrefix (*Compiler).compileProgram (*Compiler).compileRange (*Compiler).compileReceive (*Compiler).compileReturn (*Compiler).compileSend (*Compiler).compileSet (*Compiler).compileSetAttr (*Compiler).compileSetItem (*Compiler).compileSimpleFor (*Compiler).compileSlice (*Compiler).compileString (*Compiler).compileSwitch (*Compiler).compileTernary (*Compiler).compileVar (*SymbolTable).FindTable (*SymbolTable).FunctionDepth (*SymbolTable).GetFunction (*SymbolTable).GetFunctionID (*SymbolTable).IsGlobal (*SymbolTable).claimIndex definitionFromFunction definitionFromSymbolTable marshalConstant marshalConstants symbolTableFromDefinition unmarshalConstant unmarshalConstants
